@@ -278,25 +278,19 @@ class Arr(object):
         from . import libmodels
         return libmodels.CURRENT.np.clip(self, min, max, **kw)
 
-    def sum(self, axis=None, **kw):
-        from . import libmodels
-        return libmodels.CURRENT.np.sum(self, axis=axis)
-
-    def any(self, axis=None, **kw):
-        from . import libmodels
-        return libmodels.CURRENT.np.any(self, axis=axis)
-
-    def all(self, axis=None, **kw):
-        from . import libmodels
-        return libmodels.CURRENT.np.all(self, axis=axis)
-
-    def max(self, axis=None, **kw):
-        from . import libmodels
-        return libmodels.CURRENT.np.max(self, axis=axis)
-
-    def min(self, axis=None, **kw):
-        from . import libmodels
-        return libmodels.CURRENT.np.min(self, axis=axis)
+    # reductions and other methods that numpy also has as functions: the method is the function applied to the array, with
+    # every argument handed on (a keyword the summary of the function does not know is refused there, not dropped here)
+    def _np(name):        # noqa: N805
+        def method(self, *a, **kw):
+            from . import libmodels
+            return getattr(libmodels.CURRENT.np, name)(self, *a, **kw)
+        method.__name__ = name
+        return method
+    sum, any, all, max, min = _np('sum'), _np('any'), _np('all'), _np('max'), _np('min')
+    prod, mean, cumsum, cumprod = _np('prod'), _np('mean'), _np('cumsum'), _np('cumprod')
+    argmin, argmax, argsort, nonzero = _np('argmin'), _np('argmax'), _np('argsort'), _np('nonzero')
+    take, repeat, swapaxes, trace, ptp = _np('take'), _np('repeat'), _np('swapaxes'), _np('trace'), _np('ptp')
+    del _np
 
     def dot(self, other):
         from . import libmodels
